@@ -87,7 +87,7 @@ func tvRunOpts(ctx *RunCtx, pkgs []*tv.Package, o tvOpts) error {
 			mu.Unlock()
 			continue
 		}
-		if tr.V == "" && (o.CaseDeadlineS > 0 || strings.HasPrefix(p.Name, "rlk") || strings.HasPrefix(p.Name, "rnd")) {
+		if tr.V == "" && (o.CaseDeadlineS > 0 || strings.HasPrefix(p.Name, "rlk") || strings.HasPrefix(p.Name, "rnd") || strings.HasPrefix(p.Name, "rlb")) {
 			// a grammar-derived package that does not load (a generator defect, not goose's): isolate the
 			// function and report it as inconclusive instead of failing the whole check
 			if len(p.Cases) > 1 {
